@@ -73,7 +73,7 @@ class Parser:
     def _parse(self, schema, default=NO_DEFAULT):
         record_type = extract_record_type(schema)
 
-        if record_type == "record":
+        if record_type == "record" or record_type == "error":
             production = []
             schema_name = schema["name"]
 
